@@ -17,6 +17,7 @@
 #include <setjmp.h>
 #include <signal.h>
 #include <inttypes.h>
+#include <time.h>
 
 #ifndef BN_DIGIT_BIT_CNT
 #error "BN_DIGIT_BIT_CNT must be given"
@@ -118,6 +119,22 @@ wild_size(const char *fn, size_t n) {
 static void *c01_memmove(void *d, const void *s, size_t n) { if (n > WILD) wild_size("memmove", n); return (memmove(d, s, n)); }
 static void *c01_memcpy(void *d, const void *s, size_t n) { if (n > WILD) wild_size("memcpy", n); return (memcpy(d, s, n)); }
 static void *c01_memset(void *d, int c, size_t n) { if (n > WILD) wild_size("memset", n); return (memset(d, c, n)); }
+
+/* ------------------------------------------------------------------ self-imposed deadline
+ * C01_DEADLINE=<unix time>: after it every remaining case is counted as skipped (NOTE deadline_skipped)
+ * so that the run still ends with its STAT lines; run.py then reports exhaustive=false. */
+static time_t g_deadline = 0;
+static uint64_t g_deadline_skipped = 0;
+static int
+begin_case(const char *target) {
+	if (!vh_begin(target)) return (0);
+	if (0 != g_deadline && NULL == vh_only_target && time(NULL) > g_deadline) {
+		g_deadline_skipped ++;
+		vh_targets[vh_cur].run --;
+		return (0);
+	}
+	return (1);
+}
 
 /* ------------------------------------------------------------------ per target call counter */
 static uint64_t calls_by_target[VH_MAX_TARGETS];
@@ -344,7 +361,7 @@ vs_name(const vset_t *s) {
 static void
 refcheck_dump(void) {
 	size_t i, j; R a, b, t, q, m; vset_t *s = &VS_A3;
-	for (i = 0; i < s->n; i += 3) for (j = 0; j < s->n; j += 5) {
+	for (i = 0; i < s->n; i += 7) for (j = 0; j < s->n; j += 11) {
 		a = s->arr[i]; b = s->arr[j];
 		r_add(&t, &a, &b); printf("R\tadd\t%s\t%s\t%s\n", HX(&a, hx1), HX(&b, hx2), HX(&t, hx3));
 		r_mul(&t, &a, &b); printf("R\tmul\t%s\t%s\t%s\n", HX(&a, hx1), HX(&b, hx2), HX(&t, hx3));
@@ -373,6 +390,7 @@ main(int argc, char **argv) {
 	for (i = 1; i < argc; i ++) {
 		if (0 == strcmp(argv[i], "--refcheck")) { refcheck_dump(); return (0); }
 	}
+	if (NULL != getenv("C01_DEADLINE")) g_deadline = (time_t)strtoll(getenv("C01_DEADLINE"), NULL, 10);
 	arena_init();
 	scope_init();
 	vh_set_describer(describe);
@@ -382,6 +400,7 @@ main(int argc, char **argv) {
 	run_io();
 	TIMED("digit", run_digit());
 
+	if (g_deadline_skipped) printf("NOTE\tdeadline_skipped=%llu\n", (unsigned long long)g_deadline_skipped);
 	if (r_ovf) printf("NOTE\tref_overflow=1\n");	/* run.py turns this into a harness error */
 	calls_print();
 	return (vh_finish());
